@@ -11,6 +11,7 @@ package vsched
 import (
 	"fmt"
 	"reflect"
+	"sync/atomic"
 	"runtime"
 	"sort"
 	"strconv"
@@ -232,7 +233,7 @@ func BlockEnter() {}
 // Chose records the case a select took (informational).
 func Chose(k int) {}
 
-var rot int
+var rot atomic.Int64
 
 // SelectPoint is the scheduling point of a select with n communication cases; it returns the index of the
 // case to poll first.
@@ -240,11 +241,7 @@ func SelectPoint(pc, n int) int {
 	t := self()
 	if t == nil || S == nil {
 		// native fairness outside the scheduler: rotate (a fixed preference would starve cases)
-		rot++
-		if rot < 0 {
-			rot = 0
-		}
-		return rot % n
+		return int(uint64(rot.Add(1)) % uint64(n))
 	}
 	s := S
 	t.pc = pc
